@@ -19,20 +19,20 @@ THEOREMS = [
     "Glob.tokens_fuel", "Regex.nongreedy_irrelevant",
     "Privacy.default_meaning", "Privacy.exact_wins", "Privacy.last_pattern_wins", "Privacy.default_applies",
     "Privacy.precedence_partial", "Privacy.precedence_counterexample",
-    "Privacy.parseRule_wellFormed", "Privacy.cli_rules_wellFormed", "Privacy.precedence_cli_partial",
+    "Privacy.parseRule_wellFormed", "Privacy.cli_rules_wellFormed", "Privacy.precedence_cli",
+    "Privacy.defaultOf_meaning", "Privacy.main_module_rule_applies", "Privacy.main_module_counterexample_before_c8d85b0",
     "Privacy.cli_never_raises", "Privacy.cli_rejects_backwards_range",
     "Privacy.cache_transparent", "Privacy.cache_transparent_moves", "Privacy.cache_counterexample", "Privacy.isVisible_meaning",
-    "Privacy.main_module_counterexample",
 ]
 PARTIAL = {
     "Glob.qnmatch_partial": "full statement (every pattern gives an answer equal to the manual's meaning) is false: "
                             "excluded = patterns with a bracket expression holding a descending range (Glob.wellFormed = false); "
                             "witness Glob.qnmatch_counterexample ([b-a])",
     "Privacy.precedence_partial": "arbitrary rule lists (options.privacy filled by hand): excluded = lists holding a pattern with a "
-                                  "descending range, and modules named __main__ (Module.privacyClass never consults the rules); "
-                                  "witnesses Privacy.precedence_counterexample, Privacy.main_module_counterexample",
-    "Privacy.precedence_cli_partial": "rule lists accepted by the option parser (every --privacy list): no hypothesis on the patterns; "
-                                      "excluded = modules named __main__ (open finding); witness Privacy.main_module_counterexample",
+                                  "descending range (witness Privacy.precedence_counterexample) and objects without a kind "
+                                  "(kind is None -> HIDDEN, not documented at all)",
+    "Privacy.precedence_cli": "every --privacy list the option parser accepts, every object that has a kind (modules named "
+                              "__main__ included since c8d85b0; the former behaviour is Privacy.main_module_counterexample_before_c8d85b0)",
     "Privacy.cache_transparent": "hypothesis: two queried objects with the same qualified name have the same name and kind "
                                  "(the cache is keyed by qualified name only); witness Privacy.cache_counterexample",
     "Privacy.cache_transparent_moves": "same hypothesis over every record an object has during the history (initial world and moves)",
@@ -55,6 +55,8 @@ ASSUMPTIONS = [
     "inside [seq] the manual does not define ranges; the oracle and Glob.spec read lo-hi as a code-point range (fnmatch convention), "
     "a descending range as empty, an unclosed [ as a literal, and the first character after [ or [! as part of seq even when it is ]",
     "dunder = starts and ends with two underscores (so '__' and '___' count as dunders, as in the code)",
+    "the oracle's default includes 'modules named __main__ are PRIVATE' exactly when docs/source/customize.rst of the tree under "
+    "test lists it under the PRIVATE default (it does since c8d85b0)",
     "parse_privacy_tuple is modelled on ASCII input only (str.upper/strip are Unicode-aware)",
 ]
 EXPLANATION = ("Glob.translate_correct: for every pattern and name, whenever re.compile accepts the emitted text, acceptance by "
@@ -579,7 +581,25 @@ def o_level(rules: Sequence[Tuple[str, str]], ob) -> str:
         return hits[-1]
     name = ob.name
     dunder = name.startswith("__") and name.endswith("__")
-    return "PRIVATE" if name.startswith("_") and not dunder else "PUBLIC"
+    if name.startswith("_") and not dunder:
+        return "PRIVATE"
+    # "… and for modules named ``__main__``": only when the manual of the tree under test says so
+    from pydoctor import model
+    if manual_documents_main_default() and isinstance(ob, model.Module) and name == "__main__":
+        return "PRIVATE"
+    return "PUBLIC"
+
+
+@functools.lru_cache(maxsize=None)
+def manual_documents_main_default() -> bool:
+    """does docs/source/customize.rst list modules named __main__ under the PRIVATE default?"""
+    from ..core import REPO
+    try:
+        text = (REPO / "docs" / "source" / "customize.rst").read_text(encoding="utf-8")
+    except OSError:
+        return False
+    m = re.search(r"^- ``PRIVATE``: By default(.*?)^- ``PUBLIC``", text, re.S | re.M)
+    return bool(m and "__main__" in m.group(1))
 
 
 def privacy_eval(rules: Sequence[Tuple[str, str]], queries: Sequence[Tuple[str, str]], via_args: bool) -> Dict[str, Any]:
